@@ -782,6 +782,41 @@ func Dense(eco, base string, r *rand.Rand) []string {
 	return out
 }
 
+// AlignLadder returns one dense neighbourhood (a base with every tail of up to 3 symbols over 4 of the ecosystem's tail
+// symbols, 84 spellings) at ALL alignments: the first number of every member is lengthened by the same k digits for a run
+// of consecutive k, so the position where two neighbours start to differ takes every offset modulo 16 (and, over several
+// ladders, modulo 32 / 64). Block-wise prefix skipping and word-wise comparison loops are correct except at one offset.
+func AlignLadder(eco string, r *rand.Rand) []string {
+	ar := Arity[eco]
+	c := core(r, ar[0], ar[1], NumOpts{})
+	if c[0] == "0" || len(c[0]) > 2 {
+		c[0] = pick(r, "1", "3", "12")
+	}
+	base := strings.Join(c, ".")
+	if r.IntN(3) == 0 {
+		base += pickE(eco, r, "-", ".", "_", "+", "") + pickE(eco, r, "alpha", "rc", "beta", "a", "b", "p", "r")
+	}
+	if eco == "golang" {
+		base = "v" + base
+	}
+	dense := Dense(eco, base, r)
+	if len(dense) > 40 {
+		r.Shuffle(len(dense), func(a, b int) { dense[a], dense[b] = dense[b], dense[a] })
+		dense = dense[:40]
+	}
+	dense = append(dense, base)
+	out := append([]string{}, dense...)
+	k0 := r.IntN(3)
+	for k := k0 + 1; k <= k0+15; k++ {
+		for _, m := range dense {
+			if a := alignShift(m, k); a != "" {
+				out = append(out, a)
+			}
+		}
+	}
+	return out
+}
+
 // OfLength returns candidate spellings of exactly n bytes built from base by stretching one part (a numeric
 // component with leading zeros or more digits, a qualifier word, build metadata, a separator-joined tail); which
 // of them the parser accepts is observed by the caller.
@@ -950,6 +985,22 @@ func Cluster(eco string, r *rand.Rand) []string {
 			out = append(out, base+sep+w, base+sep+w+[]string{"1", "2", ".1", "-1"}[r.IntN(4)], base+sep+strings.ToUpper(w))
 		}
 	}
+	// alignment family: the same members with the first number lengthened by k digits (k the same for all of
+	// them), so that the point where neighbours differ lands on every offset modulo 8 / 16 / 32 (block-wise and
+	// word-wise comparison loops, SIMD-style prefix skipping)
+	if chance(r, 1, 6) {
+		n0 := len(out)
+		for n := 0; n < 2; n++ {
+			k := 1 + r.IntN(17)
+			for _, m := range out[:n0] {
+				if len(m) < 60 {
+					if a := alignShift(m, k); a != "" {
+						out = append(out, a)
+					}
+				}
+			}
+		}
+	}
 	// maven: the unique snapshots of this base as a repository lists them, next to the literal -SNAPSHOT
 	if eco == "maven" && chance(r, 1, 5) {
 		out = append(out, base+"-SNAPSHOT", base+"-snapshot")
@@ -973,6 +1024,25 @@ func Cluster(eco string, r *rand.Rand) []string {
 		out = append(out, Respell(eco, out[r.IntN(n)], r)...)
 	}
 	return out
+}
+
+// alignShift appends k zeros to the first digit run of s (after an optional epoch-free "v" prefix); "" if s has none.
+func alignShift(s string, k int) string {
+	i := 0
+	for i < len(s) && (s[i] < '0' || s[i] > '9') {
+		i++
+		if i > 1 {
+			return ""
+		}
+	}
+	j := i
+	for j < len(s) && s[j] >= '0' && s[j] <= '9' {
+		j++
+	}
+	if j == i || j-i+k > 18 || s[i] == '0' {
+		return ""
+	}
+	return s[:j] + strings.Repeat("0", k) + s[j:]
 }
 
 func firstNonCore(s string) int {
